@@ -121,7 +121,9 @@ def gen(tier, rng):
         others.append(("convert", a, b, None))
     k = 0
     for (op, spt, dpt, mp) in others:
-        for (w, h) in ((5, 3), (17, 2)) if tier == "quick" else ((1, 1), (5, 3), (17, 2), (8, 8), (33, 3)):
+        # every residue of the row length modulo the vector widths (remainder / tail stores)
+        for (w, h) in ((5, 3), (17, 2), (2, 3), (3, 2), (6, 1), (7, 4), (31, 2)) if tier == "quick" else \
+                ((1, 1), (2, 2), (3, 1), (4, 3), (5, 3), (6, 2), (7, 4), (8, 8), (9, 1), (10, 2), (11, 3), (13, 2), (14, 1), (15, 2), (17, 2), (23, 2), (31, 2), (33, 3)):
             for cpu in rz.CPUS if op in ("mul", "div", "mul_inplace", "div_inplace") else ("none",):
                 k += 1
                 typed = op in ("mul", "div", "mul_inplace", "div_inplace") and k % 2 == 0
